@@ -208,3 +208,146 @@ def build_iface(spec, name="IEvents"):
     for k, v in spec.get("usertags", {}).items():
         iface.AddUserTag(k, v)
     return iface
+
+
+def ttmodel_case(ctx, table):
+    """Function-level correspondence smgen.CTransitionTableModel vs Model/TTable.v (states, events, actions, guards,
+    actionsignatures, transitionsperstate, getfirststate) on one table; run by C08, C09 and C10, which all depend on it."""
+    if ctx.km is None:
+        return
+    m = kj.smgen.CTransitionTableModel(table, "NS", "X")
+    tps = [[s, [[e, [[r[0], r[1], r[2], r[3], r[4]] for r in table if r[0] == s and r[1] == e]] for e in evd]] for s, evd in m.transitionsperstate.items()]
+    # the real transition dictionaries, reduced to (action, guard, next) presence, must describe the same rows
+    real_rows = [[s, [[e, [[tr.get("<<<ACTIONNAME>>>"), tr.get("<<<GUARDNAME>>>"), tr.get("<<<NEXTSTATENAME>>>"), tr.get("<<<STATENAMEIFNEXTSTATE>>>")]
+                           for tr in trs]] for e, trs in evd.items()]] for s, evd in m.transitionsperstate.items()]
+    real = [list(m.states), list(m.events), list(m.actions), list(m.guards),
+            [[a, e] for _k, (a, e) in m.actionsignatures.items()], tps, m.getfirststate()]
+    got = ctx.km.call("tt_model", table)
+    dec = lambda v: [dec(x) for x in v] if isinstance(v, list) else v.decode()  # noqa
+    got = dec(got)
+    if got != real:
+        ctx.tie_broken("correspondence CTransitionTableModel vs Model/TTable.v", {"table": table, "real": real, "model": got})
+        return
+    opt = lambda x: None if is_none(x) else x  # noqa
+    want_rows = [[s, [[e, [[opt(r[3]), opt(r[4]), opt(r[2]), (r[0] if opt(r[2]) else None)] for r in rows]] for e, rows in evd]] for s, evd in tps]
+    if real_rows != want_rows:
+        ctx.tie_broken("CTransitionTableModel.transitionsperstate does not carry the rows' action/guard/target", {"table": table})
+
+
+def ttmodel_batch(ctx, n):
+    for i in range(n):
+        if any("CTransitionTableModel" in b["what"] for b in ctx.broken):
+            break    # already known to disagree; one report is enough
+        ttmodel_case(ctx, random_table(ctx.rng, collide=(i % 3 == 0)))
+        ctx.count("ttmodel_cases")
+
+
+# ------------------------------------------------------------------ declarations of the generated units as (kind, name, params)
+def iface_arg(spec):
+    """event interface as the model takes it: [[event, ["type member", ...]], ...]"""
+    return [[nm, ["%s %s" % (ty, m) for m, ty, _d in mem]] for nm, mem in spec["structs"]]
+
+
+def _sig(spec, e):
+    for nm, mem in spec["structs"]:
+        if nm == e:
+            return ["%s %s" % (ty, m) for m, ty, _d in mem]
+    return []
+
+
+def _split(sig):
+    return [p.strip() for p in sig.split(",") if p.strip()]
+
+
+def real_decls_cpp(files, table, spec, name="X"):
+    import re
+    _st, _ev, ac, gu = names(table)
+    ctl, ifc, impl, test = files["I%sController.h" % name], files["%sStateMachine.h" % name], files["%sStateMachineImpl_SML.cpp" % name], files["Test.%sStateMachine.cpp" % name]
+    res = {"ctl": [], "ifc": [], "impl": [], "test": []}
+    for m in re.finditer(r"struct (\w+) : public Event\s*\{(.*?)\n    \};", ctl, re.S):
+        mem = re.findall(r"^\s+([\w:]+) (\w+)(?: = [^;]+)?;\s*$", m.group(2), re.M)
+        res["ctl"].append(["KEventStruct", m.group(1), ["%s %s" % x for x in mem]])
+    tds = re.findall(r"typedef std::unique_ptr<(\w+)> \1_ptr;", ctl)
+    if "Event" in tds:
+        tds.remove("Event")      # the template's own base struct Event / Event_ptr (once)
+    for e in tds:
+        res["ctl"].append(["KEventPtrTypedef", e, _sig(spec, e)])
+    res["ctl"] += [["KCtlGuard", g, []] for g in re.findall(r"virtual bool (\w+)\(\)\s*$", ctl, re.M)]
+    res["ctl"] += [["KCtlGuardMember", g, []] for g in re.findall(r"^\s*bool m_(\w+);", ctl, re.M)]
+    res["ctl"] += [["KCtlEntry", s, []] for s in re.findall(r"virtual void (\w+)_on_entry\(\)", ctl)]
+    res["ctl"] += [["KCtlExit", s, []] for s in re.findall(r"virtual void (\w+)_on_exit\(\)", ctl)]
+    res["ctl"] += [["KCtlAction", a, [e]] for a, e in re.findall(r"virtual void (\w+)\((\w+) const& data\)", ctl)]
+    res["ifc"] += [["KIfcIs", s, []] for s in re.findall(r"virtual bool Is(\w+)\(\) const = 0;", ifc)]
+    res["ifc"] += [["KIfcTrigger", e, _split(sg)] for e, sg in re.findall(r"virtual void Trigger(\w+)\((.*)\) = 0;", ifc)]
+    res["impl"] += [["KFwdState", s, []] for s in re.findall(r"^\s*struct (\w+);\s*$", impl, re.M)]
+    res["impl"] += [["KGuardFunctor", g, []] for g in re.findall(r"struct (\w+)\s*\{\s*bool operator\(\)", impl)]
+    res["impl"] += [["KEntryFunctor", s, []] for s in re.findall(r"struct (\w+)OnEntry\{", impl)]
+    res["impl"] += [["KExitFunctor", s, []] for s in re.findall(r"struct (\w+)OnExit\{", impl)]
+    res["impl"] += [["KActionFunctor", a, []] for a in re.findall(r"struct (\w+)\s*\{\s*template <class Event>", impl)]
+    m = re.search(r"using namespace boost::sml;\n(.*?)/// Transition table", impl, re.S)
+    for ty, inst in re.findall(r"^\s*(\w+) +(\w+);\s*$", m.group(1) if m else "", re.M):
+        if inst != (ty[0].lower() + ty[1:]):
+            res["impl"].append(["KInst?", ty, [inst]])
+        elif ty.endswith("OnEntry") and ty[:-7] and ty not in ac + gu:
+            res["impl"].append(["KInstEntry", ty[:-7], []])
+        elif ty.endswith("OnExit") and ty[:-6] and ty not in ac + gu:
+            res["impl"].append(["KInstExit", ty[:-6], []])
+        elif ty in gu:
+            res["impl"].append(["KInstGuard", ty, []])
+        else:
+            res["impl"].append(["KInstAction", ty, []])
+    res["impl"] += [["KDispatchDef", e, _sig(spec, e)] for e in re.findall(r"void (\w+)::Dispatch\(void\* sm\)", impl)]
+    res["impl"] += [["KImplIs", s, []] for s in re.findall(r"virtual bool Is(\w+)\(\) const override", impl)]
+    res["impl"] += [["KImplTrigger", e, _split(sg)] for e, sg in re.findall(r"virtual void Trigger(\w+)\((.*)\) override", impl)]
+    res["test"] += [["KTestGuard", g, []] for g in re.findall(r"virtual bool (\w+)\(\) override", test)]
+    res["test"] += [["KTestEntry", s, []] for s in re.findall(r"virtual void (\w+)_on_entry\(\) override", test)]
+    res["test"] += [["KTestExit", s, []] for s in re.findall(r"virtual void (\w+)_on_exit\(\) override", test)]
+    res["test"] += [["KTestAction", a, [e]] for a, e in re.findall(r"virtual void (\w+)\((\w+) const& data\) override", test)]
+    return res
+
+
+def real_decls_cs(files, table, spec, name="X"):
+    import re
+    ctx_cs, sm_cs, internals = files["%sContext.cs" % name], files["%sStateMachine.cs" % name], files["%sInternals.cs" % name]
+    res = {"cs_context": [], "cs_sm": [], "cs_internals": []}
+    for m in re.finditer(r"public partial class (\w+) : IDispatchable \{(.*?)\n    \};", ctx_cs, re.S):
+        mem = re.findall(r"^\s+public ([\w:]+) (\w+)(?: = [^;]+)?;\s*$", m.group(2), re.M)
+        res["cs_context"].append(["KCsEventClass", m.group(1), ["%s %s" % x for x in mem]])
+    ib = re.search(r"public interface I%sContext\s*\{(.*?)\n    \};" % name, ctx_cs, re.S)
+    ib = ib.group(1) if ib else ""
+    res["cs_context"] += [["KCsGuard", g, []] for g in re.findall(r"^\s*bool (\w+)\(\);", ib, re.M)]
+    res["cs_context"] += [["KCsAction", a, [e]] for a, e in re.findall(r"^\s*void (\w+)\((\w+) data\);", ib, re.M)]
+    res["cs_context"] += [["KCsEntry", s, []] for s in re.findall(r"^\s*void On(\w+)Entry\(\);", ib, re.M)]
+    res["cs_context"] += [["KCsExit", s, []] for s in re.findall(r"^\s*void On(\w+)Exit\(\);", ib, re.M)]
+    res["cs_sm"] += [["KCsIs", s, []] for s in re.findall(r"public bool Is(\w+)\(\)", sm_cs)]
+    res["cs_sm"] += [["KCsTrigger", e, _split(sg)] for e, sg in re.findall(r"public void Trigger(\w+)\((.*)\)", sm_cs)]
+    en = re.search(r"internal enum E%sState : ushort\s*\{(.*?)\};" % name, internals, re.S)
+    res["cs_internals"] += [["KCsEnum", s, []] for s in re.findall(r"^\s+(\w+),\s*$", en.group(1) if en else "", re.M)]
+    res["cs_internals"] += [["KCsBaseHandler", e, _sig(spec, e)] for e, e2 in re.findall(
+        r"internal virtual void Trigger(\w+)\(I%sContext context, %sStateMachine sm, (\w+) data\)\{\}" % (name, name), internals) if e == e2]
+    res["cs_internals"] += [["KCsDispatchPart", e, _sig(spec, e)] for e in re.findall(r"public partial class (\w+) : IDispatchable \{", internals)]
+    res["cs_internals"] += [["KCsStateClass", s, []] for s in re.findall(r"internal class (\w+) : %sState" % name, internals)]
+    return res
+
+
+def decl_correspondence(ctx, lang, files, table, spec):
+    """Tie of Model/Decls.v: the (kind, name, params) triples read out of the real generated files by per-kind regexes equal
+    decls_file f T I (as multisets), file by file; and every reference of refs_cpp / refs_cs is then found exactly once."""
+    if ctx.km is None:
+        return
+    dec = lambda v: [dec(x) for x in v] if isinstance(v, list) else v.decode()  # noqa
+    real = real_decls_cs(files, table, spec) if lang == "cs" else real_decls_cpp(files, table, spec)
+    ia = iface_arg(spec)
+    for fid, found in real.items():
+        model = dec(ctx.km.call("decls", fid, table, ia))
+        if sorted(map(repr, model)) != sorted(map(repr, found)):
+            extra = [x for x in found if x not in model]
+            missing = [x for x in model if x not in found]
+            ctx.tie_broken("correspondence declarations of the real %s file vs Decls.decls_file" % fid,
+                           {"table": table, "iface": spec, "declared_but_not_in_model": extra[:4], "in_model_but_not_declared": missing[:4]})
+            return
+    for fid, d in dec(ctx.km.call("refs", lang, table, ia)):
+        if real[fid].count(d) != 1:
+            ctx.tie_broken("a reference of the model is not declared exactly once in the real %s file" % fid, {"table": table, "iface": spec, "ref": d})
+            return
+    ctx.count("decl_correspondence_cases")
